@@ -183,8 +183,8 @@ class XPathFunction(XPathToken):
             return self._qname
         elif self.symbol == 'function':
             return None
-        elif self.label == 'partial function':
-            return None
+        elif self.label in ('partial function', 'array', 'map'):
+            return None  # anonymous functions
         elif not self.namespace:
             self._qname = QName(None, self.symbol)
         elif self.namespace == XPATH_FUNCTIONS_NAMESPACE:
